@@ -260,6 +260,14 @@ func (c *Ctx) N(quick, thorough int) int {
 	}
 	return thorough
 }
+func instrNotes() []string {
+	var out []string
+	for _, w := range InstrLostList() {
+		out = append(out, "instrumentation lost on this tree (observations dropped): "+w)
+	}
+	return out
+}
+
 func (c *Ctx) Note(s string)      { c.mu.Lock(); c.notes = append(c.notes, s); c.mu.Unlock() }
 func (c *Ctx) SetExhaustive()     { c.exhaustive = true }
 func (c *Ctx) Count(h, k string) {
@@ -568,7 +576,7 @@ func main() {
 		"property": p.ID, "tier": tier, "seed": seed,
 		"evaluations": c.evals, "distinct": len(c.distinct), "distinct_nontrivial": c.nontrivial,
 		"rule": p.Rule, "histogram": c.hist, "samples": c.samples, "failures": fails, "nfail": c.nfail,
-		"notes": c.notes, "exhaustive": c.exhaustive, "kernel_cases": len(c.kernel),
+		"notes": append(c.notes, instrNotes()...), "exhaustive": c.exhaustive, "kernel_cases": len(c.kernel),
 		"wall_s": time.Since(start).Seconds(),
 	}
 	js, _ := json.MarshalIndent(res, "", " ")
